@@ -16,7 +16,10 @@ from common import *
 RULE = ("Lattice: rank 1-3, sizes 2-4, units 1-3, kernel_initializer in {linear, random_monotonic, "
         "random_uniform_or_linear}, monotonicities x unimodalities x joint unimodalities (partial and covering all "
         "features), optional trusts / dominances, bounds none/min/max/both incl. one-sided and negative ranges, "
-        "float32/float64, fresh numpy/TF seeds; PWLCalibration: equal_heights/equal_slopes x monotonicity{none,inc,dec} "
+        "float32/float64, fresh numpy/TF seeds, EXPLICIT initialiser objects (LinearInitializer / RandomMonotonicInitializer / "
+        "UniformOutputInitializer / KFLRandomMonotonicInitializer / RTL init_min,init_max) with ranges equal to, inside, touching "
+        "and reaching outside the output bounds (KFL: inside / negative / beyond 1); RTL ensembles (all_vertices and "
+        "kronecker_factored); PWLCalibration: equal_heights/equal_slopes x monotonicity{none,inc,dec} "
         "x bounds x clamps x convexity x uniform/non-uniform keypoints x units; KFL: default initialisers, monotonicity "
         "subsets, bounds none/min/max/both, 1-3 terms and units; CategoricalCalibration and Linear (default "
         "initialisers) as side checks with their own finding keys. Non-trivial = the initial kernel is not constant.")
@@ -89,6 +92,42 @@ def gen_bounds(rng):
   return mode, lo, hi
 
 
+def range_class(imin, imax, lo, hi):
+  """class of an EXPLICIT initialisation range relative to the layer's output bounds (independent reading:
+  'starts from weights that satisfy the layer's bound constraints' can only hold for a range inside them)"""
+  if imin is None:
+    return "default"
+  if (lo is not None and imin < lo) or (hi is not None and imax > hi):
+    return "explicit:outside"
+  return "explicit:inside"
+
+
+def gen_init_range(rng, lo, hi, p=0.4):
+  """None (the layer derives the range) or an explicit `init_min < init_max`: inside the output bounds
+  (equal to them, strictly inside, touching one end; any range incl. negative ones when unbounded) or
+  reaching outside a bound that is set."""
+  if rng.random() >= p:
+    return None
+  a = lo if lo is not None else ((hi - Fraction(rng.randint(2, 16), 4)) if hi is not None else Fraction(rng.randint(-16, 8), 4))
+  b = hi if hi is not None else a + Fraction(rng.randint(2, 16), 4)
+  w = b - a
+  mode = rng.choice(["equal", "inner", "inner", "touch_lo", "touch_hi", "outside", "outside"])
+  if mode == "equal":
+    imin, imax = a, b
+  elif mode == "inner":
+    imin = a + w * Fraction(rng.randint(0, 3), 8)
+    imax = b - w * Fraction(rng.randint(0, 3), 8)
+  elif mode == "touch_lo":
+    imin, imax = a, a + w * Fraction(rng.randint(1, 7), 8)
+  elif mode == "touch_hi":
+    imin, imax = b - w * Fraction(rng.randint(1, 7), 8), b
+  else:
+    side = rng.choice(["lo", "hi", "both"])
+    imin = a - (Fraction(rng.randint(1, 8), 4) if side in ("lo", "both") else 0)
+    imax = b + (Fraction(rng.randint(1, 8), 4) if side in ("hi", "both") else 0)
+  return (imin, imax)
+
+
 def gen_lattice_cfg(rng):
   rank = rng.choice([1, 2, 2, 3])
   sizes = [rng.randint(2, 4) for _ in range(rank)]
@@ -121,8 +160,10 @@ def gen_lattice_cfg(rng):
       (md if rng.random() < 0.5 else rd).append((a, b))
   bmode, lo, hi = gen_bounds(rng)
   init_id = rng.choice(["linear_initializer", "random_monotonic_initializer", "random_uniform_or_linear_initializer"])
+  # explicit initialiser OBJECTS (LinearInitializer / RandomMonotonicInitializer) with their own range
+  irange = gen_init_range(rng, lo, hi, 0.35) if init_id != "random_uniform_or_linear_initializer" else None
   return dict(sizes=sizes, mono=mono, uni=uni, ju=ju, ew=ew, tz=tz, md=md, rd=rd, jm=jm, lo=lo, hi=hi, init=init_id,
-              units=rng.choice([1, 1, 2, 3]), dtype=rng.choice(["float32", "float32", "float64"]))
+              irange=irange, units=rng.choice([1, 1, 2, 3]), dtype=rng.choice(["float32", "float32", "float64"]))
 
 
 def lattice_cls(cfg):
@@ -419,13 +460,24 @@ def oracle_pwl(ctx, key, case, w, init_min, init_max, mono, kp, rtol):
 # ------------------------------------------------------------------ freshly built layers
 def build_lattice(cfg):
   import tensorflow_lattice as tfl
+  from tensorflow_lattice.python import lattice_layer
+  init = cfg["init"]
+  if cfg.get("irange"):
+    imin, imax = cfg["irange"]
+    uni = all_unimodalities(cfg)
+    if cfg["init"] == "linear_initializer":
+      init = lattice_layer.LinearInitializer(list(cfg["sizes"]), list(cfg["mono"]), float(imin), float(imax),
+                                             unimodalities=uni if any(uni) else None)
+    else:
+      init = lattice_layer.RandomMonotonicInitializer(list(cfg["sizes"]), float(imin), float(imax),
+                                                      unimodalities=uni if any(uni) else None)
   kw = dict(lattice_sizes=list(cfg["sizes"]), units=cfg["units"], monotonicities=list(cfg["mono"]),
             unimodalities=list(cfg["uni"]) if any(cfg["uni"]) else None,
             joint_unimodalities=cfg["ju"], edgeworth_trusts=[tuple(t) for t in cfg["ew"]] or None,
             trapezoid_trusts=[tuple(t) for t in cfg["tz"]] or None,
             monotonic_dominances=[tuple(t) for t in cfg["md"]] or None,
             range_dominances=[tuple(t) for t in cfg["rd"]] or None,
-            output_min=fl(cfg["lo"]), output_max=fl(cfg["hi"]), kernel_initializer=cfg["init"], dtype=cfg["dtype"])
+            output_min=fl(cfg["lo"]), output_max=fl(cfg["hi"]), kernel_initializer=init, dtype=cfg["dtype"])
   layer = tfl.layers.Lattice(**kw)
   rank = len(cfg["sizes"])
   layer.build((None, cfg["units"], rank) if cfg["units"] > 1 else (None, rank))
@@ -444,7 +496,9 @@ def run_lattice_layers(ctx, count, lines, pend):
     np.random.seed(seed)
     tf.random.set_seed(seed)
     case["seed"] = seed
-    init_min, init_max = py_default_init_params(cfg["lo"], cfg["hi"])
+    init_min, init_max = cfg["irange"] if cfg.get("irange") else py_default_init_params(cfg["lo"], cfg["hi"])
+    rcls = range_class(*(cfg["irange"] or (None, None)), cfg["lo"], cfg["hi"])
+    ctx.count("lattice:init_range:" + rcls)
     covers_all = bool(cfg["ju"]) and len(cfg["ju"][0][0]) == len(cfg["sizes"])
     try:
       with Recorder() as rec:
@@ -458,8 +512,8 @@ def run_lattice_layers(ctx, count, lines, pend):
         cfail(ctx, "build_raises", dict(layer="lattice", cls="build"), case, classify_exc(e) + ": " + str(e)[:200])
       continue
     sizes, U = cfg["sizes"], cfg["units"]
-    key = dict(layer="lattice", cls=cls.split(":")[0])
-    ctx.case(sig=("lattice", cls, U, cfg["dtype"], hash(K.tobytes()) % 9973), nontrivial=bool(np.ptp(K) > 0),
+    key = dict(layer="lattice", cls=cls.split(":")[0], init_range=rcls)
+    ctx.case(sig=("lattice", cls, rcls, U, cfg["dtype"], hash(K.tobytes()) % 9973), nontrivial=bool(np.ptp(K) > 0),
              sample=dict(case, kernel=K))
     rtol = 2e-6 if cfg["dtype"] == "float32" else 1e-12
     linear = cfg["init"] == "linear_initializer" or (cfg["init"] == "random_uniform_or_linear_initializer" and not covers_all)
@@ -481,7 +535,7 @@ def run_lattice_layers(ctx, count, lines, pend):
       lines.append("init.rm %s %s %s" % (il(sizes), il2(perms), frl(sample)))
       pend.append(("layer.rm", dict(case, perms=perms, sample=sample), K[:, 0], rtol))
     else:
-      bound_key = dict(layer="lattice", cls="joint_all_random_uniform")
+      bound_key = dict(layer="lattice", cls="joint_all_random_uniform", init_range=rcls)
       ctx.count("lattice:joint-all -> keras random_uniform")
     # bounds of the LAYER
     tol = rtol * max(1.0, mag_(cfg["lo"]), mag_(cfg["hi"]))
@@ -497,15 +551,22 @@ def run_lattice_layers(ctx, count, lines, pend):
     extra = bool(cfg["ew"] or cfg["tz"] or cfg["md"] or cfg["rd"] or cfg["jm"])
     akey = dict(layer="lattice", cls=("joint_all_random_uniform" if bound_key is not key else
                                      ("trusts_or_dominances:" + key["cls"] if extra else
-                                      ("joint_unimodality:" + key["cls"] if cfg["ju"] else key["cls"]))))
+                                      ("joint_unimodality:" + key["cls"] if cfg["ju"] else key["cls"]))), init_range=rcls)
     try:
       layer.assert_constraints(eps=1e-5)
     except Exception as e:
       cfail(ctx, "assert_constraints", akey, case, K, classify_exc(e) + ": " + str(e)[:200])
     # constraint(init) == init for monotonicity + bounds only
-    if not any(cfg["uni"]) and not cfg["ju"] and not extra:
-      ctx.count("lattice:fixpoint-checked")
-      for cons in (layer.kernel.constraint, layer._final_constraints):
+    # (Tfl.C10.linear_init_is_fixpoint_of_constraint covers unimodal dimensions too; the random-monotonic kernel is
+    # non-decreasing along EVERY dimension, which contradicts a configured valley / peak)
+    if (not any(cfg["uni"]) or linear) and not cfg["ju"] and not extra:
+      ctx.count("lattice:fixpoint-checked" + (":unimodal" if any(cfg["uni"]) else ""))
+      from tensorflow_lattice.python import lattice_layer as _ll
+      nonstrict = _ll.LatticeConstraints(
+          lattice_sizes=list(cfg["sizes"]), monotonicities=list(cfg["mono"]),
+          unimodalities=list(cfg["uni"]) if any(cfg["uni"]) else None, output_min=fl(cfg["lo"]), output_max=fl(cfg["hi"]),
+          num_projection_iterations=rng.choice([1, 3, 10]), enforce_strict_monotonicity=False)
+      for cons in (layer.kernel.constraint, layer._final_constraints, nonstrict):
         out = cons(layer.kernel).numpy().astype(np.float64)
         if np.abs(out - K).max() > tol:
           cfail(ctx, "constraint_fixpoint", key, case, dict(init=K, projected=out),
@@ -538,6 +599,7 @@ def gen_pwl_layer_cfg(rng):
   cmin = mono_i != 0 and lo is not None and rng.random() < 0.3
   cmax = mono_i != 0 and hi is not None and rng.random() < 0.3
   return dict(kp=kp, uniform=uniform, mono=mono, mono_i=mono_i, conv=conv, lo=lo, hi=hi, cmin=cmin, cmax=cmax,
+              irange=gen_init_range(rng, lo, hi, 0.3),   # explicit UniformOutputInitializer(output_min, output_max, …)
               init=rng.choice(["equal_heights", "equal_slopes"]), units=rng.choice([1, 1, 2, 3]),
               dtype=rng.choice(["float32", "float64"]), iters=rng.choice([1, 8]))
 
@@ -552,23 +614,37 @@ def run_pwl_layers(ctx, count, lines, pend):
     case = dict(layer="pwl", cfg=cfg, cls=cls)
     ctx.count("pwl:" + cls.rsplit(":", 3)[0])
     kpf = [float(v) for v in cfg["kp"]]
+    rcls = range_class(*(cfg["irange"] or (None, None)), cfg["lo"], cfg["hi"])
+    if rcls != "default" and (cfg["cmin"] or cfg["cmax"]):
+      # a clamped end pins the first / last output to the bound: an explicit range not ending there contradicts
+      # the clamp itself, not the bounds — kept out of the explicit-range classes
+      cfg["irange"], rcls = None, "default"
+    ctx.count("pwl:init_range:" + rcls)
     try:
+      kinit = cfg["init"]
+      if cfg["irange"]:
+        from tensorflow_lattice.python import pwl_calibration_layer
+        kinit = pwl_calibration_layer.UniformOutputInitializer(
+            output_min=float(cfg["irange"][0]), output_max=float(cfg["irange"][1]), monotonicity=cfg["mono"],
+            keypoints=kpf if cfg["init"] == "equal_slopes" else None)
       layer = tfl.layers.PWLCalibration(input_keypoints=kpf, units=cfg["units"], output_min=fl(cfg["lo"]), output_max=fl(cfg["hi"]),
                                         clamp_min=cfg["cmin"], clamp_max=cfg["cmax"], monotonicity=cfg["mono"],
-                                        convexity=cfg["conv"], kernel_initializer=cfg["init"], dtype=cfg["dtype"],
+                                        convexity=cfg["conv"], kernel_initializer=kinit, dtype=cfg["dtype"],
                                         num_projection_iterations=cfg["iters"])
       layer.build((None, cfg["units"]))
     except ValueError as e:
       cfail(ctx, "build_raises", dict(layer="pwl", cls="build"), case, classify_exc(e) + ": " + str(e)[:200])
       continue
     K = layer.kernel.numpy().astype(np.float64)
-    key = dict(layer="pwl", cls=cfg["init"])
-    ctx.case(sig=("pwl", cls, cfg["units"], cfg["dtype"], len(kpf)), nontrivial=bool(np.abs(K[1:]).max() > 0), sample=dict(case, kernel=K))
+    key = dict(layer="pwl", cls=cfg["init"], init_range=rcls)
+    ctx.case(sig=("pwl", cls, rcls, cfg["units"], cfg["dtype"], len(kpf)), nontrivial=bool(np.abs(K[1:]).max() > 0), sample=dict(case, kernel=K))
     rtol = 2e-6 if cfg["dtype"] == "float32" else 1e-12
     # init bounds as the statement reads them: the output bounds, a missing one replaced by the other, (0, 0) if none
     lo, hi = cfg["lo"], cfg["hi"]
     imin = lo if lo is not None else (hi if hi is not None else Fraction(0))
     imax = hi if hi is not None else (lo if lo is not None else Fraction(0))
+    if cfg["irange"]:
+      imin, imax = cfg["irange"]
     if cfg["units"] > 1 and np.abs(K - K[:, :1]).max() > 0:
       cfail(ctx, "units_identical", key, case, K)
     oracle_pwl(ctx, key, case, K, imin, imax, cfg["mono_i"], kpf if cfg["init"] == "equal_slopes" else None, rtol)
@@ -586,7 +662,7 @@ def run_pwl_layers(ctx, count, lines, pend):
       d2 = np.diff(sl) * (1.0 if cfg["conv"] == "convex" else -1.0)
       if d2.min() < -1e-6 * max(1.0, np.abs(sl).max()):
         ctx.count("pwl:observation:convexity violated at init (%s, %s keypoints)" % (cfg["init"], "uniform" if cfg["uniform"] else "non-uniform"))
-    akey = dict(layer="pwl", cls=(cfg["init"] + (":convexity" if cfg["conv"] != "none" else "")))
+    akey = dict(layer="pwl", cls=(cfg["init"] + (":convexity" if cfg["conv"] != "none" else "")), init_range=rcls)
     try:
       layer.assert_constraints(eps=1e-5)
     except Exception as e:
@@ -609,15 +685,41 @@ def run_kfl_layers(ctx, count, lines, pend):
     bmode, lo, hi = gen_bounds(rng)
     dtype = rng.choice(["float32", "float64"])
     cls = "m%d:b%s%s" % (int(any(monos)), "L" if lo is not None else "", "H" if hi is not None else "")
-    case = dict(layer="kfl", L=L, dims=dims, T=T, units=U, monos=monos, lo=lo, hi=hi, dtype=dtype, cls=cls)
+    # explicit KFLRandomMonotonicInitializer(init_min, init_max): the KERNEL range. With output bounds the layer's
+    # own choice is [0, 1] (scale carries the range), without [0.5, 1.5]; monotonicity of the product form needs
+    # non-negative factors. Classes: inside (non-negative, and within [0, 1] when bounded) / negative / outside.
+    irange, rcls = None, "default"
+    if rng.random() < 0.4:
+      mode = rng.choice(["inside", "inside", "negative", "outside"])
+      if mode == "inside":
+        a = Fraction(rng.randint(0, 4), 8)
+        b = a + Fraction(rng.randint(1, 8), 8)
+        if lo is not None or hi is not None:
+          b = min(b, Fraction(1))
+      elif mode == "negative":
+        a = -Fraction(rng.randint(1, 12), 8)
+        b = a + Fraction(rng.randint(1, 16), 8)
+      else:
+        a = Fraction(rng.randint(0, 16), 8)
+        b = max(a, Fraction(1)) + Fraction(rng.randint(1, 16), 8)
+      irange = (a, b)
+      rcls = ("explicit:negative" if a < 0 else
+              ("explicit:outside" if (lo is not None or hi is not None) and b > 1 else "explicit:inside"))
+    ctx.count("kfl:init_range:" + rcls)
+    case = dict(layer="kfl", L=L, dims=dims, T=T, units=U, monos=monos, lo=lo, hi=hi, dtype=dtype, cls=cls, irange=irange)
     ctx.count("kfl:" + cls)
     seed = rng.randrange(2 ** 31)
     tf.random.set_seed(seed)
     case["seed"] = seed
     try:
       with Recorder() as rec:
+        kw = {}
+        if irange:
+          from tensorflow_lattice.python import kronecker_factored_lattice_layer as kfl_layer
+          kw["kernel_initializer"] = kfl_layer.KFLRandomMonotonicInitializer(
+              monotonicities=monos, init_min=float(irange[0]), init_max=float(irange[1]), seed=seed)
         layer = tfl.layers.KroneckerFactoredLattice(lattice_sizes=L, units=U, num_terms=T, monotonicities=monos if any(monos) or rng.random() < 0.5 else None,
-                                                    output_min=fl(lo), output_max=fl(hi), dtype=dtype)
+                                                    output_min=fl(lo), output_max=fl(hi), dtype=dtype, **kw)
         layer.build(tf.TensorShape([None, dims] if U == 1 else [None, U, dims]))
     except ValueError as e:
       cfail(ctx, "build_raises", dict(layer="kfl", cls="build"), case, classify_exc(e) + ": " + str(e)[:200])
@@ -625,11 +727,13 @@ def run_kfl_layers(ctx, count, lines, pend):
     K = layer.kernel.numpy().astype(np.float64).reshape(L, U, dims, T)
     S = layer.scale.numpy().astype(np.float64)
     Bv = layer.bias.numpy().astype(np.float64)
-    key = dict(layer="kfl", cls=cls)
-    ctx.case(sig=("kfl", cls, L, dims, T, U, dtype), nontrivial=True, sample=dict(case, kernel=K, scale=S, bias=Bv))
+    key = dict(layer="kfl", cls=cls, init_range=rcls)
+    ctx.case(sig=("kfl", cls, rcls, L, dims, T, U, dtype), nontrivial=True, sample=dict(case, kernel=K, scale=S, bias=Bv))
     rtol = 2e-6 if dtype == "float32" else 1e-12
     imin, imax = (0.5, 1.5) if lo is None and hi is None else (0.0, 1.0)
-    if K.min() < imin - rtol or K.max() > imax + rtol:
+    if irange:
+      imin, imax = float(irange[0]), float(irange[1])
+    if K.min() < imin - rtol * max(1.0, abs(imin)) or K.max() > imax + rtol * max(1.0, abs(imax)):
       cfail(ctx, "kfl_init_range", key, case, K, "kernel range [%g, %g] outside [%g, %g]" % (K.min(), K.max(), imin, imax))
     sg = np.sign(S)                                  # (U, T)
     for d in range(dims):
@@ -675,6 +779,105 @@ def run_kfl_layers(ctx, count, lines, pend):
     if np.abs(k1 - k0).max() > rtol * 2 or np.abs(s1 - s0).max() > rtol * max(1.0, np.abs(s0).max()):
       cfail(ctx, "constraint_fixpoint", key, case, dict(init=k0, projected=k1, scale=s0, scale_projected=s1),
                "constraints move the initial kernel/scale by %g / %g" % (np.abs(k1 - k0).max(), np.abs(s1 - s0).max()))
+
+
+def run_rtl_layers(ctx, count):
+  """tfl.layers.RTL: the ensemble builds Lattice (all_vertices) or KroneckerFactoredLattice layers with
+  `create_kernel_initializer(..., init_min, init_max)`; default AND explicit initialisation ranges."""
+  import tensorflow as tf
+  import tensorflow_lattice as tfl
+  rng = ctx.rng
+  for _ in range(count):
+    rank = rng.randint(1, 3)
+    n_unc, n_inc = rng.randint(0, 3), rng.randint(0, 3)
+    while n_unc + n_inc < rank:
+      n_inc += 1
+    param = rng.choice(["all_vertices", "all_vertices", "kronecker_factored"])
+    kinit = (rng.choice(["linear_initializer", "random_monotonic_initializer"]) if param == "all_vertices"
+             else "kfl_random_monotonic_initializer")
+    bmode, lo, hi = gen_bounds(rng)
+    size = rng.randint(2, 3)
+    if param == "all_vertices":
+      irange = gen_init_range(rng, lo, hi, 0.5)
+      rcls = range_class(*(irange or (None, None)), lo, hi)
+    else:
+      irange, rcls = None, "default"
+      if rng.random() < 0.5:
+        mode = rng.choice(["inside", "negative", "outside"])
+        a = Fraction(rng.randint(0, 4), 8) if mode != "negative" else -Fraction(rng.randint(1, 12), 8)
+        b = a + Fraction(rng.randint(1, 8), 8)
+        if mode == "inside" and (lo is not None or hi is not None):
+          b = min(b, Fraction(1))
+        if mode == "outside":
+          b = max(a, Fraction(1)) + Fraction(rng.randint(1, 16), 8)
+        irange = (a, b)
+        rcls = ("explicit:negative" if a < 0 else
+                ("explicit:outside" if (lo is not None or hi is not None) and b > 1 else "explicit:inside"))
+    cls = "%s:%s" % (param, kinit.split("_")[0])
+    key = dict(layer="rtl", cls=cls, init_range=rcls)
+    ctx.count("rtl:%s:%s" % (cls, rcls))
+    seed = rng.randrange(2 ** 31)
+    nl_min = -(-(n_unc + n_inc) // rank)            # every input feature must be used: num_lattices * rank >= #features
+    case = dict(layer="rtl", num_lattices=rng.randint(nl_min, nl_min + 2), rank=rank, size=size, n_unc=n_unc, n_inc=n_inc, lo=lo, hi=hi,
+                irange=irange, param=param, init=kinit, seed=seed, cls=cls)
+    np.random.seed(seed)
+    tf.random.set_seed(seed)
+    B = 24
+    xs = {}
+    if n_unc:
+      xs["unconstrained"] = np.array([[rng.uniform(0, size - 1) for _ in range(n_unc)] for _ in range(B)])
+    if n_inc:
+      xs["increasing"] = np.array([[rng.uniform(0, size - 1) for _ in range(n_inc)] for _ in range(B)])
+    try:
+      layer = tfl.layers.RTL(num_lattices=case["num_lattices"], lattice_rank=rank, lattice_size=size, output_min=fl(lo),
+                             output_max=fl(hi), init_min=None if irange is None else float(irange[0]),
+                             init_max=None if irange is None else float(irange[1]), kernel_initializer=kinit,
+                             parameterization=param, random_seed=seed % 1000, num_terms=rng.randint(1, 3))
+      y = layer({k: tf.constant(v, dtype=tf.float32) for k, v in xs.items()}).numpy().astype(np.float64)
+    except ValueError as e:
+      dmin, dmax = py_default_init_params(lo, hi)
+      if irange is None and param == "all_vertices" and dmin >= dmax:
+        ctx.count("rtl:expected-rejection(init_min>=init_max)")
+        ctx.case(sig=("rtl", "rejected", cls), nontrivial=False)
+      else:
+        cfail(ctx, "build_raises", dict(layer="rtl", cls="build"), case, classify_exc(e) + ": " + str(e)[:200])
+      continue
+    ws = [w.numpy().astype(np.float64) for w in layer.weights]
+    ctx.case(sig=("rtl", cls, rcls, rank, size, n_unc, n_inc, bmode), nontrivial=True, sample=dict(case, weights=ws))
+    tol = 4e-6 * max(1.0, mag_(lo), mag_(hi), *(abs(float(v)) for v in (irange or (0, 0))))
+    if param == "all_vertices":
+      imin, imax = irange if irange else py_default_init_params(lo, hi)
+      for inner in layer._lattice_layers.values():
+        K = inner.kernel.numpy().astype(np.float64)
+        if K.min() < float(imin) - tol or K.max() > float(imax) + tol:
+          cfail(ctx, "init_range", key, case, K, "kernel range [%g, %g] outside [%g, %g]" % (K.min(), K.max(), float(imin), float(imax)))
+        if (lo is not None and K.min() < float(lo) - tol) or (hi is not None and K.max() > float(hi) + tol):
+          cfail(ctx, "bounds", key, case, K, "initial kernel range [%g, %g] outside the output bounds" % (K.min(), K.max()))
+        sizes = [size] * rank
+        for u in range(K.shape[1]):
+          t = K[:, u].reshape(sizes)
+          for d, m in enumerate(inner.monotonicities):
+            if m and np.diff(t, axis=d).min() < -tol:
+              cfail(ctx, "monotonicity", key, case, K, "unit %d axis %d decreases" % (u, d))
+        out = inner.kernel.constraint(inner.kernel).numpy().astype(np.float64)
+        if np.abs(out - K).max() > tol:
+          cfail(ctx, "constraint_fixpoint", key, case, dict(init=K, projected=out),
+                "constraint moves the initial kernel by %g" % np.abs(out - K).max())
+    # the function: bounded, and non-decreasing in every 'increasing' input
+    if (lo is not None and y.min() < float(lo) - tol) or (hi is not None and y.max() > float(hi) + tol):
+      cfail(ctx, "bounds", key, case, dict(x=xs, y=y), "initial outputs [%g, %g] outside the bounds" % (y.min(), y.max()))
+    for j in range(n_inc):
+      x2 = {k: v.copy() for k, v in xs.items()}
+      x2["increasing"][:, j] = np.minimum(size - 1, x2["increasing"][:, j] + np.array([rng.uniform(0, 1.5) for _ in range(B)]))
+      y2 = layer({k: tf.constant(v, dtype=tf.float32) for k, v in x2.items()}).numpy().astype(np.float64)
+      if (y2 - y).min() < -tol:
+        cfail(ctx, "monotonicity", key, case, dict(x=xs, x2=x2, y=y, y2=y2),
+              "output decreases by %g in increasing input %d" % (-(y2 - y).min(), j))
+    try:
+      layer.assert_constraints(eps=1e-5)
+    except Exception as e:
+      cfail(ctx, "assert_constraints", key, case, ws, classify_exc(e) + ": " + str(e)[:200])
+
 
 
 def run_side_layers(ctx, count):
@@ -758,6 +961,7 @@ def run(ctx):
   run_pwl_layers(ctx, ctx.n(100, 3000), lines, pend)
   run_kfl_layers(ctx, ctx.n(50, 1200), lines, pend)
   check_layers(ctx, pend, run_driver(lines, timeout=1200))
+  run_rtl_layers(ctx, ctx.n(45, 900))
   run_side_layers(ctx, ctx.n(40, 600))
 
 
@@ -773,6 +977,8 @@ def replay(ctx, failure):
     run_pwl_layers(sub, 150, lines, pend)
   elif layer == "kfl":
     run_kfl_layers(sub, 80, lines, pend)
+  elif layer == "rtl":
+    run_rtl_layers(sub, 120)
   else:
     run_side_layers(sub, 60)
   if failure["key"].get("cls", "").startswith("lib."):
